@@ -54,6 +54,20 @@ func (r RemoveIntersections) processSchema(v *Visitor, schema *ast.Schema) (*ast
 		return nil, foundErr
 	}
 
+	// the entry point follows the object that replaces the one it designates
+	if replacement, removed := r.objectsToRemove[schema.EntryPoint]; removed {
+		if array, isArray := r.arraysToFix[schema.EntryPoint]; isArray {
+			replacement = array
+		}
+
+		schema.EntryPoint = ""
+		schema.EntryPointType = ast.Type{}
+		if _, replaced := r.objectsToRemove[replacement.Name]; !replaced && schema.HasObject(replacement.Name) {
+			schema.EntryPoint = replacement.Name
+			schema.EntryPointType = replacement.SelfRef.AsType()
+		}
+	}
+
 	for toRemove := range r.objectsToRemove {
 		schema.Objects.Remove(toRemove)
 	}
